@@ -827,7 +827,7 @@ def smt_expr_to_str(  # noqa: C901
     if z3.is_string_value(f):
         result = '"' + cast(str, f.as_string()).replace('"', r"\"") + '"'
         result = result.replace(r"\u{}", r"\u{0}")
-        return result
+        return escape_non_ascii_smt(result)
     if z3.is_int_value(f):
         return str(f.as_long())
     if z3.is_true(f):
@@ -868,6 +868,23 @@ def smt_expr_to_str(  # noqa: C901
         return f"({kind} ({' '.join(vars)}) {smt_expr_to_str(f.body(), qfd_var_stack)})"
 
     raise NotImplementedError(f"{str(f)} ({type(f).__name__})")
+
+
+def escape_non_ascii_smt(smt_text: str) -> str:
+    r"""
+    Replaces all non-ASCII characters in the SMT-LIB text `smt_text` by their
+    `\u{...}` escape sequences. Z3's Python bindings garble non-ASCII characters in
+    SMT-LIB string literals when parsing (each byte of the UTF-8 encoding becomes a
+    character of its own).
+
+    :param smt_text: The SMT-LIB text to escape.
+    :return: The same text with non-ASCII characters escaped.
+    """
+
+    if smt_text.isascii():
+        return smt_text
+
+    return "".join(c if ord(c) < 128 else "\\u{%x}" % ord(c) for c in smt_text)
 
 
 def smt_string_val_to_string(smt_val: z3.StringVal) -> str:
